@@ -98,6 +98,9 @@ def run(ctx):
                 r1.violation("split", "split(%r, %r): the typed-text parameter must be split with the colon flag off (':' is an Avro letter)" % (a0, flag), site_of(b, bb))
         ret = b.expr_local(0)
         fp = format_parts(b, ret)
+        if fp is None:
+            from engine.analyses import built_string_parts
+            fp = built_string_parts(b, 0)           # the same three pieces appended one after the other
         if fp is None or [x[0] for x in fp] != ["val", "val", "val"]:
             r1.violation("concat", "the result is not the concatenation of exactly three converted parts: %r" % (fp,), common.fn_line(prog, lk))
         else:
@@ -246,9 +249,7 @@ def run(ctx):
     r4 = chk.rule("C03.R4", "the splitter's punctuation set contains the stated characters and no letter or digit, and one set feeds both scans",
                   "leading/trailing strings over the stated punctuation set are split off the word")
     sb = prog.body(sp)
-    sets = common.str_literal_sets(prog, sp)
-    for ck in prog.closures_of(sp):
-        sets += common.str_literal_sets(prog, ck)
+    sets = common.splitter_sets(prog, sp)
     lits = sorted({s for s, bb in sets})
     if not lits:
         r4.undecidable("set", "no `literal.contains(char)` found in the splitter")
